@@ -98,16 +98,14 @@ def r3(ctx):
                       key="C08|C08.R3|%s|update without hint maintenance" % fn_of(fa.body.name))
         for s in sites(fa, BF_SET_RANGE):
             n += 1
-            # clear: contiguous_length = start when start < contiguous_length
-            sw = [x for x in bool_switches(fa, lambda o: o[0] == "bin" and o[1] in ("Lt", "Gt") and {term_sig(strip(o[2])), term_sig(strip(o[3]))} == {"start", "self.header.hints.contiguous_length"})]
+            # clear: contiguous_length = min(contiguous_length, start), on every path after set_range
+            HINT_ = "self.header.hints.contiguous_length"
+            ws = [(bb, si) for bb, si in assign_sites(fa, HINT_) if fa.can_reach(s, bb) or bb == s]
             good = False
-            if sw:
-                b, o, tr, fl = sw[0]
-                lower = tr if (o[1] == "Lt") == (term_sig(strip(o[2])) == "start") else fl
-                ws = [(bb, si) for bb, si in assign_sites(fa, "self.header.hints.contiguous_length") if fa.dominates(lower, bb)]
-                good = bool(ws) and fa.dominates(s, b) and fa.postdominates(b, s) and all(strip(fa.origin_rvalue(fa.blocks[bb].stmts[si]["rv"], bb, si)) == ("param", "start") for bb, si in ws)
-                drop = fa.arg_origin(s, 3)
-                good = good and term_is_lit(drop, 0)
+            if ws:
+                ok_, why_ = lowers_to_min(ctx, fa, ws[0][0], ws[0][1], lambda g: g == HINT_, lambda g: g == "start")
+                gates = [d for d in fa.dom.get(ws[0][0], ()) if d in fa.reach(s, include_src=True)]
+                good = ok_ and any(fa.postdominates(d, s) for d in gates) and term_is_lit(fa.arg_origin(s, 3), 0)
             ctx.check(P, rule, "clear lowers the contiguous-length hint to the start of the cleared range", good, "if start < contiguous_length { contiguous_length = start } follows set_range(start, end-start, false) on every path",
                       "clearing at %s is not followed by lowering the contiguous-length hint" % loc(fa, s), [site_desc(fa, s)], key="C08|C08.R3|clear|hint not lowered")
     if n < 4 and ctx.crate.name == "hypercore":
@@ -131,67 +129,80 @@ def r3(ctx):
         ctx.check(P, rule, "update_contiguous_length distinguishes drop from set", bool(sw), "branch on bitfield_update.drop", "no branch on the drop flag")
 
 
+def lowers_to_min(ctx, fa, bb, si, is_old, is_start, skip=lambda sig: False):
+    """Is the value stored by statement (bb, si) `min(old, start)`, however written —
+    `min(old, start)`, or `start` exactly when `start < old` and the old value otherwise?  Decided
+    over the alternative values of the stored operand and the comparison facts that dominate each
+    assignment.  Returns (ok, why)."""
+    from .c09 import dominating_conditions
+    rv = fa.blocks[bb].stmts[si]["rv"]
+    if rv["k"] != "use":
+        return False, "stored value is not a plain value"
+    alts = guarded_values(fa, rv["op"]) if op_place_(rv["op"]) is not None else [(fa.origin_operand(rv["op"], bb, si), bb)]
+    saw_lower = False
+    for term, db in alts:
+        db = bb if db is None else db
+        conds = [(o, tr) for o, tr, _ in dominating_conditions(fa, db) if isinstance(tr, bool) and not skip(term_sig(o))]
+        on_old = [(o, tr) for o, tr in conds if o[0] == "bin" and o[1] in ("Lt", "Eq") and (is_old(term_sig(strip(o[2]))) or is_old(term_sig(strip(o[3]))))]
+        lt_true = [(o, tr) for o, tr in on_old if o[1] == "Lt" and tr is True and is_start(term_sig(strip(o[2]))) and is_old(term_sig(strip(o[3])))]
+        t = strip(unwrap_ovf(term))
+        for r in roots(t):
+            r = strip(r)
+            sig = term_sig(r)
+            if r[0] == "call" and r[2].split("::")[-1] == "min" and len(r[3]) == 2:
+                a_, b_ = term_sig(strip(r[3][0])), term_sig(strip(r[3][1]))
+                if (is_old(a_) and is_start(b_)) or (is_start(a_) and is_old(b_)):
+                    if on_old:
+                        return False, "min(old, start) is stored only under %s" % [(term_sig(o), tr) for o, tr in on_old]
+                    saw_lower = True
+                    continue
+            if is_start(sig):
+                others = [(term_sig(o), tr) for o, tr in on_old if (o, tr) not in lt_true and not (o[1] == "Eq" and tr is False)]
+                if not lt_true:
+                    return False, "`start` is stored without the guard start < old (%s)" % [(term_sig(o), tr) for o, tr in on_old]
+                if others:
+                    return False, "`start` is stored only under the additional condition(s) %s" % others
+                saw_lower = True
+                continue
+            if is_old(sig):
+                if lt_true:
+                    return False, "the old value is kept although start < old"
+                continue
+            # some other value (the non-drop branch of update_contiguous_length): must not be reachable under start < old of the drop case
+            if lt_true:
+                return False, "a different value (%s) is stored under start < old" % sig[:60]
+    return saw_lower, ("stores min(old, start)" if saw_lower else "no alternative lowers the value to `start`")
+
+
+def op_place_(o):
+    return o.get("c") or o.get("m")
+
+
 def r3b(ctx):
     """sibling agreement: the live path (clear) and the replay path (update_contiguous_length,
     drop branch) lower the hint under the same condition — whenever it exceeds the start of the
-    dropped range; an additional bound on the replay side makes a replayed clear keep a stale hint"""
+    dropped range (hint := min(hint, start)); an additional bound on the replay side makes a
+    replayed clear keep a stale hint"""
     rule = "C08.R3"
-    from .c09 import dominating_conditions
     fu = ctx.fn(UCL)
     if not need(ctx, P, rule, UCL, fu):
         return
     HINT = "header.hints.contiguous_length"
-    lower = []
-    # the local that is finally stored into the hint
-    stored = set()
-    for bb_, si_ in assign_sites(fu, HINT):
-        rv = fu.blocks[bb_].stmts[si_]["rv"]
-        if rv["k"] == "use":
-            p_ = rv["op"].get("c") or rv["op"].get("m")
-            while p_ is not None and not p_["p"]:
-                stored.add(p_["l"])
-                ds = [d for d in fu.body.defs.get(p_["l"], []) if not d[3]["p"] and d[0] == "assign" and d[4]["k"] == "use"]
-                nxt = None
-                if len(ds) == 1 and not fu.body.local_name(p_["l"]):
-                    nxt = ds[0][4]["op"].get("c") or ds[0][4]["op"].get("m")
-                p_ = nxt
-    for b in fu.live():
-        for si, st in enumerate(b.stmts):
-            if st["k"] == "assign" and not st["place"]["p"] and st["place"]["l"] in stored:
-                v = fu.origin_rvalue(st["rv"], b.i, si)
-                if path_of(strip(v)) == "bitfield_update.start":
-                    lower.append((b.i, si))
-    if not need(ctx, P, rule, "update_contiguous_length: hint lowered to bitfield_update.start", lower):
+    ws = assign_sites(fu, HINT)
+    if not need(ctx, P, rule, "update_contiguous_length: store to the hint", ws):
         return
-    bb, si = lower[0]
-    conds = dominating_conditions(fu, bb)
-    need_cmp, extra = False, []
-    for o, truth, sb in conds:
-        s = term_sig(o)
-        if "drop" in s:
-            continue
-        if o[0] == "bin" and o[1] in ("Gt", "Lt", "Ge", "Le"):
-            sides = (term_sig(strip(o[2])), term_sig(strip(o[3])))
-            if HINT in sides and "bitfield_update.start" in sides:
-                op = o[1] if truth else {"Gt": "Le", "Lt": "Ge", "Ge": "Lt", "Le": "Gt"}[o[1]]
-                if sides[0] != HINT:
-                    op = {"Gt": "Lt", "Lt": "Gt", "Ge": "Le", "Le": "Ge"}[op]
-                need_cmp = need_cmp or op == "Gt"
-                continue
-        extra.append("%s is %s" % (s[:90], truth))
-    ctx.check(P, rule, "a replayed drop lowers the hint whenever it exceeds the start of the dropped range", need_cmp and not extra,
-              "update_contiguous_length (drop): c > start => c = start, exactly the condition used by clear()",
-              "update_contiguous_length lowers the hint to `start` only under the additional condition(s) [%s]: clear() lowers it whenever start < contiguous_length, so a clear in the middle of the contiguous range that is replayed from the oplog on reopen leaves a stale contiguous length" % "; ".join(extra),
-              [loc(fu, bb, si)], key="C08|C08.R3|update_contiguous_length|drop lowering condition")
+    ok_, why_ = lowers_to_min(ctx, fu, ws[0][0], ws[0][1], lambda g: g == HINT, lambda g: g == "bitfield_update.start", skip=lambda sig: "drop" in sig)
+    ctx.check(P, rule, "a replayed drop lowers the hint whenever it exceeds the start of the dropped range", ok_ and len(ws) == 1,
+              "update_contiguous_length (drop): hint := min(hint, start), exactly what clear() does",
+              "update_contiguous_length does not lower the hint to min(hint, start) on a drop (%s): clear() lowers it whenever start < contiguous_length, so a clear in the middle of the contiguous range that is replayed from the oplog on reopen leaves a stale contiguous length" % why_,
+              [loc(fu, ws[0][0], ws[0][1])], key="C08|C08.R3|update_contiguous_length|drop lowering condition")
     fc = ctx.real_body(CLEAR, [OPLOG_CLEAR])
     if need(ctx, P, rule, CLEAR, fc):
-        ws = assign_sites(fc, "self.header.hints.contiguous_length")
-        good = False
-        if ws:
-            cs = [(term_sig(o), tr) for o, tr, _ in dominating_conditions(fc, ws[0][0])]
-            cmp_ = [c for c in cs if "contiguous_length" in c[0]]
-            good = len(cmp_) == 1 and cmp_[0][0] in ("Lt(start, self.header.hints.contiguous_length)", "Gt(self.header.hints.contiguous_length, start)") and cmp_[0][1] is True
-        ctx.check(P, rule, "clear lowers the hint exactly when start < contiguous_length", good, "single guard start < contiguous_length", "clear's lowering guard differs: %s" % (cs if ws else None))
+        wc = assign_sites(fc, "self.header.hints.contiguous_length")
+        good, why_ = False, "no store to the hint"
+        if wc:
+            good, why_ = lowers_to_min(ctx, fc, wc[0][0], wc[0][1], lambda g: g == "self.header.hints.contiguous_length", lambda g: g == "start")
+        ctx.check(P, rule, "clear lowers the hint exactly when start < contiguous_length", good and len(wc) == 1, "hint := min(hint, start)", "clear's lowering differs: %s" % why_)
 
 
 def r4(ctx):
